@@ -413,7 +413,7 @@ class P:
                     return "(XPath \"Vec::new\" [])"
                 return "(XUnknown %s)" % q("macro " + "::".join(segs))
             name = "::".join(segs)
-            if self.at("{") and not nostruct and segs[-1][0].isupper():
+            if self.at("{") and not nostruct and (segs[-1][0].isupper() or segs[-1][0] == "$"):
                 self.eat()
                 fs = []
                 while not self.at("}"):
@@ -513,13 +513,6 @@ def impls(toks):
     i, n = 0, len(toks)
     while i < n:
         t = toks[i][1]
-        if t == "macro_rules":
-            # skip the whole macro definition
-            j = i
-            while toks[j][1] != "{":
-                j += 1
-            i = find_matching(toks, j, "{", "}") + 1
-            continue
         if t == "impl":
             j = i + 1
             # header up to the opening brace of the impl body (where-clauses may contain no braces)
@@ -543,6 +536,9 @@ def impls(toks):
                 k += 1
             if for_at is not None:
                 ty = head[for_at + 1]
+                # `for $rc<MergeObserver<O>>`: the cell type is a macro parameter, the struct inside names the impl
+                if ty.startswith("$") and for_at + 3 < len(head) and head[for_at + 2] == "<" and re.match(r"[A-Z]\w*$", head[for_at + 3]):
+                    ty = "%s<%s>" % (ty, head[for_at + 3])
                 trait = next((h for h in head[:for_at] if h[0].isupper() and h not in ()), "")
                 # the trait is the last capitalised path segment before `for` at depth 0
                 depth, trait = 0, ""
